@@ -21,6 +21,7 @@ pub fn world() -> MemDb {
     db.fund(eoa(4), U256::ZERO, 0);
     db.fund(eoa(6), U256::from(10 * ETHER), u64::MAX);
     db.fund(eoa(7), U256::from(10 * ETHER), 0);
+    db.fund(eoa(8), U256::from(10 * ETHER), 0);
     db.deploy(contract(0), kit::incr());
     db.accounts.get_mut(&contract(0)).unwrap().info.balance = U256::from(10 * ETHER);
     db
@@ -51,6 +52,16 @@ pub fn templates() -> Vec<Template> {
         tpl("spend(e2>e7,1e)", eoa(2), &["e2"], |n| transfer(eoa(2), n, eoa(7), ETHER)),
         tpl("dup-nonce(e3)", eoa(3), &["e3"], |n| transfer(eoa(3), n, eoa(7), 5)).skew(-1),
         tpl("valid(e3>e7)", eoa(3), &["e3"], |n| transfer(eoa(3), n, eoa(7), 5)),
+        // validity that depends on an EIP-7702 authorisation applied earlier in the block: the
+        // authority's nonce is bumped by its own type-4 transaction or by somebody else's
+        tpl_auth("selfauth(e8)", eoa(8), &["e8"], vec![eoa(8)], |n, nonce_of| {
+            with_auths(call(eoa(8), n, eoa(7), &[]), vec![authorization(eoa(8), nonce_of(eoa(8)), contract(0))])
+        }),
+        tpl_auth("auth-of-e8-by(e3)", eoa(3), &["e8", "e3"], vec![eoa(8)], |n, nonce_of| {
+            with_auths(call(eoa(3), n, eoa(7), &[]), vec![authorization(eoa(8), nonce_of(eoa(8)), contract(0))])
+        }),
+        tpl("e8-next-nonce-as-if-no-auth(e8>e7)", eoa(8), &["e8"], |n| transfer(eoa(8), n, eoa(7), 3)).stale().from_spec(SpecId::PRAGUE),
+        tpl("e8-next-nonce(e8>e7)", eoa(8), &["e8"], |n| transfer(eoa(8), n, eoa(7), 3)).from_spec(SpecId::PRAGUE),
     ]
 }
 
@@ -90,11 +101,19 @@ pub fn jobs(tier: Tier) -> Vec<Job> {
     let templates = templates();
     let mut v = Vec::new();
     let (max_len, specs, bound): (usize, &[SpecId], usize) = match tier {
-        Tier::Quick => (3, &[SpecId::CANCUN], 1),
+        Tier::Quick => (3, &[SpecId::CANCUN, SpecId::PRAGUE], 1),
         Tier::Thorough => (3, &[SpecId::BERLIN, SpecId::CANCUN, SpecId::PRAGUE], 2),
     };
     for seq in sequences(templates.len(), max_len) {
         for &spec in specs {
+            // quick: the Prague rule set only for blocks that need it (authorisation templates)
+            let needs_prague = seq.iter().any(|&t| templates[t].min_spec == SpecId::PRAGUE);
+            if tier == Tier::Quick && (spec == SpecId::PRAGUE) != needs_prague {
+                continue;
+            }
+            if tier == Tier::Quick && needs_prague && seq.len() == 3 && !seq.iter().all(|&t| templates[t].tags.contains(&"e8") || templates[t].label.starts_with("valid(e0")) {
+                continue; // quick: length-3 authorisation blocks stay on the authority's account
+            }
             let Some(case0) = build_case("c03", spec, &db, &templates, &seq) else { continue };
             for dn in [false, true] {
                 let mut case = case0.clone();
